@@ -87,11 +87,13 @@ class Campaign:
         self.excluded = 0
         self.extra_cov = {}
         self.nontrivial_extra = 0  # distinct-by-construction enumerated cases
+        self.pbt_cases = 0  # cases that went through record() (floors are judged on these)
         self.t0 = time.time()
 
     # -- recording -----------------------------------------------------
     def record(self, case, res):
         self.cases += 1
+        self.pbt_cases += 1
         self.evaluations += res.evaluations
         self.excluded += res.excluded
         for c in res.classes:
@@ -135,6 +137,7 @@ class Campaign:
             "excluded": self.excluded,
             "extra_cov": self.extra_cov,
             "nontrivial_extra": self.nontrivial_extra,
+            "pbt_cases": self.pbt_cases,
         }
 
     def merge(self, d):
@@ -155,6 +158,7 @@ class Campaign:
                 self.buckets[sig][2] += cnt
         self.excluded += d["excluded"]
         self.nontrivial_extra += d.get("nontrivial_extra", 0)
+        self.pbt_cases += d.get("pbt_cases", d["cases"])
         for k, v in d.get("extra_cov", {}).items():
             if isinstance(v, (int, float)) and isinstance(self.extra_cov.get(k), (int, float)):
                 self.extra_cov[k] += v
@@ -312,12 +316,12 @@ def finish(mod, camp):
     # floors: a generator that stopped producing the interesting shape is a harness error
     floors = getattr(mod, "FLOORS", {})
     floor_fail = []
-    if camp.cases > 0:
+    if camp.pbt_cases > 0:
         for name, frac in floors.items():
             if name == "nontrivial":
-                got = (len(camp.nontrivial) + camp.nontrivial_extra) / float(max(camp.cases, camp.evaluations if camp.nontrivial_extra else 0))
+                got = len(camp.nontrivial) / float(camp.pbt_cases)
             else:
-                got = camp.classes.get(name, 0) / float(camp.cases)
+                got = camp.classes.get(name, 0) / float(camp.pbt_cases)
             if got < frac:
                 floor_fail.append("%s=%.3f<%.3f" % (name, got, frac))
     print(
